@@ -18,6 +18,7 @@
 package validator
 
 import (
+	"io"
 	"net/http"
 
 	"fmt"
@@ -152,7 +153,14 @@ func (v *Validator) Handle(ctx *context.Context) string {
 		}
 	}
 	if v.signer != nil {
-		if err := v.signer.Verify(req.Std()); err != nil {
+		stdr := req.Std()
+		if !req.IsStream() {
+			// the body of the underlying request has already been read out
+			// into the payload, verify the signature against that.
+			stdr = stdr.WithContext(stdr.Context())
+			stdr.Body = io.NopCloser(req.GetPayload())
+		}
+		if err := v.signer.Verify(stdr); err != nil {
 			prepareErrorResponse(http.StatusUnauthorized, "signature validator: ", err)
 			return resultInvalid
 		}
